@@ -11,6 +11,7 @@
 From Coq Require Import List NArith Permutation.
 From Verif Require Import Model.Cfg Proofs.NetP Proofs.CfgSummP Proofs.CfgFuelP Proofs.CfgP Proofs.CfgRouteP Proofs.CfgL2P Proofs.CfgAggP Proofs.CfgAllocBridgeP Proofs.CfgPrefix.
 From Verif Require Import Model.CfgFull Proofs.CfgFullP.
+From Verif Require Import Model.Reconciler Proofs.ReconcilerCfgP.
 Local Open Scope N_scope.
 
 (* ipaddr.Summarize: the prefixes returned for the inclusive range [s,e] cover exactly the
@@ -243,6 +244,30 @@ Theorem C08_accepted_pools_for_allocator : forall iter r out, pools_for iter r =
   AllocPolicyP.names_unique (to_alloc_pools out) /\
   AllocPolicyP.pools_disjoint (Alloc.by_name (to_alloc_pools out)).
 Proof. exact accepted_pools_for_allocator. Qed.
+
+(* what the handler (speaker / controller) HOLDS: after any history of reconciles, a step on a
+   cluster state that config.For accepts as c and that ends without requeue leaves c as the
+   configuration last given to the handler (Model/Reconciler.v, theorems C18_reconciler_...), so every
+   theorem about accepted configurations applies to what the handler holds at quiescence - e.g.
+   its pools are pairwise disjoint.  [ceq] = reflect.DeepEqual, assumed to decide equality.
+   (Which requests reach the reconciler is not part of the model: see the known finding
+   reconciler-node-address-change-not-observed.) *)
+Theorem C08_handler_holds_for_of_current_state : forall (ceq : fconfig -> fconfig -> bool),
+  (forall x y, ceq x y = true <-> x = y) ->
+  forall srt iter m evs snap h c,
+    full_to_config srt iter m snap = Some c ->
+    o_requeue (snd (hstep ceq false (hrun ceq false evs hinit) (Some c, h))) = false ->
+    h_given (hrun ceq false (evs ++ [(full_to_config srt iter m snap, h)]) hinit) = Some c /\
+    ForallOrdPairs disjoint (flat_map p_cidrs (po_pools (fc_pools c))).
+Proof. exact handler_holds_for_of_current_state. Qed.
+
+Theorem C08_pool_handler_accepted_for_of_current_state : forall (ceq : fconfig -> fconfig -> bool),
+  (forall x y, ceq x y = true <-> x = y) ->
+  forall srt iter m evs snap h c,
+    full_to_config srt iter m snap = Some c -> h <> HErrorNoRetry ->
+    o_requeue (snd (hstep ceq true (hrun ceq true evs hinit) (Some c, h))) = false ->
+    h_accepted (hrun ceq true (evs ++ [(full_to_config srt iter m snap, h)]) hinit) = Some c.
+Proof. exact pool_handler_accepted_for_of_current_state. Qed.
 
 (* non-vacuity: a range crossing alignment boundaries, the F4 pair after the fix *)
 Example C08_nonvacuous :
